@@ -154,6 +154,13 @@ def setup(reg):
 
 class ParseSource(Contract):
     target = "pyab_experiment.utils.wraper_functions:parse_source"
+
+    def replay(self, obl):
+        from vcore import native
+        r = native.one({"cmd": "parse_probe", "limit": 1}, timeout=1200)
+        if r["failures"]:
+            return {"reproduced": True, "input": r["failures"][0], "note": "found by probing the real parse_source against the reference parser"}
+        return {"reproduced": False, "searched": r["evaluations"], "note": "no disagreement with the reference parser on %d probe texts" % r["evaluations"]}
     props = ("C01", "C02", "C05", "C06", "C07", "C08", "C09", "C11", "C13", "C14", "C17")
     allow_any_exception = True
 
